@@ -243,6 +243,8 @@ func vhClass(p string) string {
 		return "panic"
 	case strings.HasPrefix(p, "hang"):
 		return "hang"
+	case strings.HasPrefix(p, "crash"):
+		return "crash"
 	case strings.HasPrefix(p, "balloon"):
 		return "balloon"
 	}
